@@ -410,9 +410,10 @@ class Simplifier(pysmt.walkers.DagWalker):
             return self.manager.Real(l**r)
 
         if args[0].is_int_constant():
-            l = cast(int, args[0].constant_value())
+            # Pow always has type Real (see SimpleTypeChecker.walk_pow)
+            l = Fraction(cast(int, args[0].constant_value()))
             r = cast(int, args[1].constant_value())
-            return self.manager.Int(l**r)
+            return self.manager.Real(l**r)
 
         if args[0].is_algebraic_constant():
             from pysmt.constants import Numeral
